@@ -283,6 +283,26 @@ func (c *C16Case) universe() *Universe {
 	return u
 }
 
+// matchOccurrences returns, for every element of from, the index in to of the operand with the same
+// canonical text, matching the k-th occurrence of a text with its k-th occurrence (-1: no partner).
+func matchOccurrences(from, to []*m.Node) []int {
+	where := map[string][]int{}
+	for j, k := range to {
+		c := canonBool(k)
+		where[c] = append(where[c], j)
+	}
+	out := make([]int, len(from))
+	for i, k := range from {
+		c := canonBool(k)
+		if l := where[c]; len(l) > 0 {
+			out[i], where[c] = l[0], l[1:]
+		} else {
+			out[i] = -1
+		}
+	}
+	return out
+}
+
 func withCost(costs []CostEntry, name string, f func(old float64, had bool) float64) []CostEntry {
 	out := make([]CostEntry, 0, len(costs)+1)
 	done := false
@@ -343,18 +363,17 @@ func checkC16(c C16Case, r *Rec) *Violation {
 			if len(a.Kids) > widest {
 				widest = len(a.Kids)
 			}
-			pos := map[string]int{}
-			for j, kb := range b.Kids {
-				pos[canonBool(kb)] = j
-			}
+			// textually identical operands (two groups that both fold to false, say) cannot be told
+			// apart: the k-th occurrence in the source is matched with the k-th occurrence in the
+			// reordered program, the only assignment under which identical operands "keep their order"
+			posOf := matchOccurrences(a.Kids, b.Kids)
 			last := map[string]int{}
 			lastText := map[string]string{}
 			groups := map[string]int{}
-			for _, ka := range a.Kids {
+			for i, ka := range a.Kids {
 				key := shapeKey(ka, costTag)
-				ca := canonBool(ka)
 				groups[key]++
-				p, ok := pos[ca]
+				p, ok := posOf[i], posOf[i] >= 0
 				if !ok {
 					bad = Violf("C16: operand %s lost by Reordering\n%s", m.Render(ka), where())
 					return
@@ -388,10 +407,7 @@ func checkC16(c C16Case, r *Rec) *Violation {
 				if bad != nil || !costModel.isValid() {
 					return
 				}
-				srcPos := map[string]int{}
-				for i, ka := range a.Kids {
-					srcPos[canonBool(ka)] = i
-				}
+				srcOf := matchOccurrences(b.Kids, a.Kids) // position in the source of every reordered operand (duplicates: k-th with k-th)
 				strict := 0
 				for i := 0; i+1 < len(b.Kids); i++ {
 					x, y := b.Kids[i], b.Kids[i+1]
@@ -406,7 +422,7 @@ func checkC16(c C16Case, r *Rec) *Violation {
 						if shapeKey(x, costTag) != shapeKey(y, costTag) {
 							tieSeen = true
 						}
-						if costModel.usable() && srcPos[canonBool(x)] > srcPos[canonBool(y)] {
+						if costModel.usable() && srcOf[i] >= 0 && srcOf[i+1] >= 0 && srcOf[i] > srcOf[i+1] {
 							bad = Violf("C16: operands of equal estimated cost (%v) do not keep source order: %s was written before %s\n%s", cx, m.Render(y), m.Render(x), where())
 							return
 						}
@@ -449,19 +465,16 @@ func checkC16(c C16Case, r *Rec) *Violation {
 			if bad != nil {
 				return
 			}
-			posB := map[string]int{}
-			for j, kb := range b.Kids {
-				posB[canonBool(kb)] = j
-			}
+			posB := matchOccurrences(a.Kids, b.Kids) // identical operands: k-th occurrence with k-th occurrence
 			for i, p := range a.Kids { // p after q under M ...
 				if !p.Mentions(c.X) {
 					continue
 				}
-				for _, q := range a.Kids[:i] {
+				for iq, q := range a.Kids[:i] {
 					if q.Mentions(c.X) {
 						continue
 					}
-					if posB[canonBool(p)] < posB[canonBool(q)] { // ... and before q under M[X += delta]
+					if posB[i] >= 0 && posB[iq] >= 0 && posB[i] < posB[iq] { // ... and before q under M[X += delta]
 						bad = Violf("C16: raising the cost of %s by %d moved %s ahead of %s, which does not mention it\n%s\nraised cost=%s", c.X, c.Delta, m.Render(p), m.Render(q), where(), m.Render(onR.DTree))
 						return
 					}
